@@ -149,3 +149,96 @@ def obs_sphp(case):
 
 OBSERVERS = {"int": obs_int, "dec": obs_dec, "opaque": obs_opaque, "nom": obs_nom, "ck": obs_ck, "time": obs_time, "bits": obs_bits,
              "att": obs_att, "sphp": obs_sphp}
+
+
+# ---------------------------------------------------------------------------------------------------------------------
+# helpers no listed property names (spec growth; judged as EXT:* notes)
+def obs_twos(case):
+    from pyubx2 import val2signmag, val2twoscomp
+
+    t = "U%03d" % case["n"]
+    return {"kind": "twos", "val": case["val"], "n": case["n"], "out": int(val2twoscomp(case["val"], t)), "outsm": int(val2signmag(case["val"], t))}
+
+
+def obs_esc(case):
+    from pyubx2 import escapeall
+
+    b = bytes.fromhex(case["b"])
+    return {"kind": "esc", "b": list(b), "out": escapeall(b)}
+
+
+def obs_hext(case):
+    from pyubx2 import hextable
+
+    raw = bytes.fromhex(case["raw"])
+    return {"kind": "hext", "raw": list(raw), "cols": case["cols"], "out": hextable(raw, case["cols"])}
+
+
+def obs_dop(case):
+    from pyubx2 import dop2str
+
+    return {"kind": "dop", "h": case["h"], "out": dop2str(case["h"] / 100)}
+
+
+def obs_lookup(case):
+    from pyubx2 import gnss2str, gpsfix2str
+
+    f = gnss2str if case["which"] == "gnss" else gpsfix2str
+    return {"kind": "lookup", "which": case["which"], "x": case["x"], "out": str(f(case["x"]))}
+
+
+def obs_kfv(case):
+    from pyubx2 import key_from_val
+
+    d = {k: v for k, v in case["pairs"]}
+    try:
+        out = key_from_val(d, case["v"])
+    except KeyError:
+        out = ""
+    return {"kind": "kfv", "pairs": [{"k": k, "v": v} for k, v in d.items()], "v": case["v"], "out": out}
+
+
+class _Mon:
+    pass
+
+
+def obs_mon(case):
+    from pyubx2 import process_monver
+
+    m = _Mon()
+    pad = lambda s, n: s.encode() + bytes(max(0, n - len(s)))  # noqa: E731
+    m.swVersion = pad(case["sw"], 30)
+    m.hwVersion = pad(case["hw"], 10)
+    for k, e in enumerate(case["exts"]):
+        setattr(m, "extension_%02d" % (k + 1), pad(e, 30))
+    out = process_monver(m)
+    return {"kind": "mon", "sw": case["sw"], "hw": case["hw"], "exts": case["exts"], "out": {k: str(v) for k, v in out.items()}}
+
+
+def obs_msgstr(case):
+    from pyubx2 import msgstr2bytes
+
+    try:
+        c, i = msgstr2bytes(case["cls"], case["id"])
+        out = [c[0], i[0]] if len(c) == 1 and len(i) == 1 else [-1]
+    except Exception:  # noqa: BLE001
+        out = []
+    return {"kind": "msgstr", "cls": case["cls"], "id": case["id"], "out": out}
+
+
+def obs_msgcls(case):
+    from pyubx2 import msgclass2bytes
+
+    c, i = msgclass2bytes(case["c"], case["i"])
+    return {"kind": "msgcls", "c": case["c"], "i": case["i"], "out": [c[0], i[0]] if len(c) == 1 and len(i) == 1 else [-1]}
+
+
+def obs_attsiz(case):
+    from pyubx2 import attsiz, atttyp
+
+    t = case["t"]
+    return {"kind": "attsiz", "t": t, "w": 0 if t == "CH" else int(t[1:4]), "typ": atttyp(t), "siz": int(attsiz(t))}
+
+
+OBSERVERS.update({"twos": obs_twos, "esc": obs_esc, "hext": obs_hext, "dop": obs_dop, "lookup": obs_lookup, "kfv": obs_kfv,
+                  "mon": obs_mon, "msgstr": obs_msgstr, "msgcls": obs_msgcls, "attsiz": obs_attsiz})
